@@ -83,3 +83,26 @@ Theorem C09_batch_results_aligned : forall (K : Fld) (ofN : N -> F K) (mode : vm
   verify_batch K ofN mode ns np nt ms orc = Ok masks -> masks = map (mask_of K ofN mode) ms.
 Proof. exact batch_results_aligned. Qed.
 Print Assumptions C09_batch_results_aligned.
+
+(** THE PROPERTY IN WHOLE BATCHES: wherever a seeded, non-aggregated member made by the code-shaped prover (nonces
+    assigned as in Model/Nonce.v from the seed oracle) sits in a batch that [verify_batch] answers with Ok — any position,
+    any chunk, whatever the other members are — the result at that position is Some of its commitment's blinding vector,
+    in both recovering modes.  (C09_batch_results_aligned + C09_seeded_recovery_exact.) *)
+From BP Require Import Model.Nonce Proofs.HonestTopP Proofs.MaskBatchP.
+Theorem C09_in_batch_recovery : forall (K : Fld), FldOk K -> forall (M : Mod K), ModOk K M ->
+  forall (ofN : N -> K) (toN : K -> N), (forall x, ofN (toN x) = x) ->
+  forall (enc : M -> N) (seed_nonce : nlabel -> option nat -> nat -> K) (rng : nat -> list K) (g : gens K M)
+         bits cap (v : N) (p : option N) (r : list K) (ch : pchals K) mode ns np nt ms orc masks i,
+  let T := length (g_Gb g) in
+  let rounds := length (pc_es ch) in
+  let nn := assign K seed_nonce rng true T rounds in
+  verify_batch K ofN mode ns np nt ms orc = Ok masks ->
+  nth_error ms i = Some (honest_member K M toN enc g bits cap [v] [p] [r] nn ch true seed_nonce) ->
+  mode <> VerifyOnly ->
+  1 <= bits -> 1 <= cap -> length (g_G g) = bits * cap -> length (g_Hv g) = bits * cap ->
+  1 * bits = 2 ^ rounds ->
+  pc_y ch <> f0 K -> pc_z ch <> f0 K -> pc_e ch <> f0 K -> Forall (fun e => e <> f0 K) (pc_es ch) ->
+  length r = T ->
+  nth_error masks i = Some (Some r).
+Proof. intros K Kok M Mok ofN toN OT enc. exact (in_batch_recovery K Kok M Mok ofN toN OT enc). Qed.
+Print Assumptions C09_in_batch_recovery.
